@@ -578,7 +578,8 @@ fn gen_what(rng: &mut Rng, pending: u8) -> What {
 fn probe_cases(env: &mut Env, run: &mut Run, rng: &mut Rng, thorough: bool) {
     let server = env.rt.block_on(async { UdpSocket::bind("127.0.0.1:0").await.unwrap() });
     let server_addr = server.local_addr().unwrap();
-    let variants = ["genuine", "other-transaction-id", "error-class", "other-method", "indication", "request-echo", "no-mapped-address", "flipped-id-bit"];
+    let variants = ["genuine", "other-transaction-id", "error-class", "other-method", "indication", "request-echo", "no-mapped-address", "flipped-id-bit", "right-id-from-other-ip"];
+    let other_ip = env.rt.block_on(async { UdpSocket::bind("127.0.0.2:0").await.unwrap() });
     let n = if thorough { 40 } else { 6 };
     for round in 0..n { for (vi, v) in variants.iter().enumerate() {
         let (transport, _r) = IceTransport::new(rustrtc::RtcConfiguration::default());
@@ -597,7 +598,7 @@ fn probe_cases(env: &mut Env, run: &mut Run, rng: &mut Rng, thorough: bool) {
                 if *v == "flipped-id-bit" { tx[11] ^= 1; }
                 let attrs = if *v == "no-mapped-address" { vec![] } else { vec![StunAttribute::XorMappedAddress(mapped)] };
                 let reply = StunMessage { class: cls, method: meth, transaction_id: tx, attributes: attrs }.encode(None, true).unwrap();
-                let _ = server.send_to(&reply, from).await;
+                if *v == "right-id-from-other-ip" { let _ = other_ip.send_to(&reply, from).await; } else { let _ = server.send_to(&reply, from).await; }
                 (req, reply)
             };
             tokio::join!(t.verif_probe_stun(server_addr), srv)
@@ -605,7 +606,7 @@ fn probe_cases(env: &mut Env, run: &mut Run, rng: &mut Rng, thorough: bool) {
         if req.is_empty() { run.count("probe_request_not_seen"); continue; }
         let got = match &res { Ok(Some(c)) => format!("some {}", addr3(&c.address)), Ok(None) => "none".to_string(), Err(_) => "none".to_string() };
         let registered = transport.verif_registered_socket_count() > before;
-        run.case("probe", &format!("{} {}", hex(&req[8..20]), hex(&reply)), &got, got != "none");
+        run.case("probe", &format!("{} {} {}", hex(&req[8..20]), hex(&reply), (*v != "right-id-from-other-ip") as u8), &got, got != "none");
         run.count(&format!("probe_{v}_{}", got.split(' ').next().unwrap()));
         let honoured = got != "none" || registered;
         if honoured && vi != 0 { run.fail(&format!("response:honoured-without-matching-transaction:probe-stun:{v}"), &format!("probe {v}"), &format!("{got} registered={registered}")); }
@@ -618,6 +619,60 @@ fn probe_cases(env: &mut Env, run: &mut Run, rng: &mut Rng, thorough: bool) {
         transport.stop();
         let _ = round;
     }}
+}
+
+/// `attach_demuxed_tcp_stream` (shared passive TCP listener): a new inbound connection whose first frame is an
+/// UNAUTHENTICATED Binding request (the routing ufrag is public) must not touch candidates / pair / nomination /
+/// state / published socket; an authenticated one may. What it does to the gatherer's stream table before
+/// authentication is recorded as an observation (outside the effects the property names).
+fn demux_tcp_cases(env: &mut Env, run: &mut Run) {
+    for controlling in [false, true] { for state in [0u8, 1, 2, 5] { for first in ["unauth-no-mi", "unauth-wrong-key", "garbage", "genuine", "genuine-use-candidate"] { for with_genuine_before in [false, true] {
+        let (transport, _r) = IceTransport::new(rustrtc::RtcConfiguration::default());
+        transport.set_role(if controlling { IceRole::Controlling } else { IceRole::Controlled });
+        transport.verif_set_state(STATES[state as usize]);
+        let lp = transport.local_parameters();
+        let mk = |user_ok: bool, key: Option<&[u8]>, uc: bool| { let mut attrs = vec![StunAttribute::Username(if user_ok { format!("{}:peer", lp.username_fragment) } else { "zzzz:peer".into() }), StunAttribute::Priority(1)];
+            if uc { attrs.push(StunAttribute::UseCandidate); }
+            StunMessage { class: StunClass::Request, method: StunMethod::Binding, transaction_id: [7; 12], attributes: attrs }.encode(key, true).unwrap() };
+        let (listen_addr, conns) = env.rt.block_on(async {
+            let l = TcpListener::bind("127.0.0.1:0").await.unwrap();
+            let la = l.local_addr().unwrap();
+            let mut v = vec![];
+            for _ in 0..2 { let c = TcpStream::connect(la).await.unwrap(); let (s, p) = l.accept().await.unwrap(); v.push((c, s, p)); }
+            (la, v)
+        });
+        transport.verif_add_local_candidate(IceCandidate::host_tcp(listen_addr, 1, TcpType::Passive));
+        let mut conns = conns.into_iter();
+        let mut keep = vec![];
+        if with_genuine_before {
+            let (c, srv, peer) = conns.next().unwrap();
+            env.rt.block_on(transport.verif_attach_demuxed_tcp_stream(srv, peer, listen_addr, mk(true, Some(lp.password.as_bytes()), true)));
+            keep.push(c);
+        }
+        let before = observe(&transport, "-".into());
+        let streams_before = transport.verif_tcp_streams();
+        let (c, srv, peer) = conns.next().unwrap();
+        let pkt = match first { "unauth-no-mi" => mk(true, None, true), "unauth-wrong-key" => mk(true, Some(b"nope"), true), "garbage" => vec![0, 1, 2, 3],
+            "genuine" => mk(true, Some(lp.password.as_bytes()), false), _ => mk(true, Some(lp.password.as_bytes()), true) };
+        let t = transport.clone(); let rt = &env.rt;
+        let r = crate::catch(std::panic::AssertUnwindSafe(move || rt.block_on(t.verif_attach_demuxed_tcp_stream(srv, peer, listen_addr, pkt))));
+        keep.push(c);
+        let after = observe(&transport, "-".into());
+        let streams_after = transport.verif_tcp_streams();
+        let role = if controlling { "controlling" } else { "controlled" };
+        let case = format!("demux-tcp role={role} state={} first={first} genuine-before={with_genuine_before}", STATE_NAMES[state as usize]);
+        if r.is_err() { run.fail("unauth:demux-tcp:panic", &case, ""); }
+        if !first.starts_with("genuine") {
+            let field = if after.state != before.state { "state-changed" } else if after.nom != before.nom { "nomination-completed" } else if after.sel != before.sel { "selected-pair-changed" }
+                else if after.rems != before.rems { "candidate-added" } else if after.selsock != before.selsock { "selected-socket-changed" } else { "" };
+            if !field.is_empty() { run.fail(&format!("unauth:demux-tcp-first-frame:{role}:{field}"), &case, &format!("{} -> {}", before.text(), after.text())); }
+            if streams_after != streams_before { run.count("observation_unauthenticated_tcp_connection_registered_before_authentication");
+                if with_genuine_before { run.count("observation_unauthenticated_tcp_connection_replaced_genuine_stream_in_table"); } }
+        } else if !controlling && after.nom != Some(true) { run.fail("demux-tcp:genuine-first-frame-not-honoured", &case, &after.text()); }
+        run.count(&format!("demux_tcp_{first}"));
+        transport.stop();
+        drop(keep);
+    }}}}
 }
 
 fn gen_tick_case(rng: &mut Rng) -> Case {
@@ -761,6 +816,7 @@ pub fn run(args: &Args) {
     }
     raw_auth_stream(&mut env, &mut run, &mut rng, args.tier_thorough);
     probe_cases(&mut env, &mut run, &mut rng, args.tier_thorough);
+    demux_tcp_cases(&mut env, &mut run);
     run.exhaustive = true;
     run.notes.insert("exhaustive_scope".into(), serde_json::json!("request matrix USERNAME{none,wrong,correct} x MESSAGE-INTEGRITY{none,corrupted,wrong-key,correct,remote-password} x ±USE-CANDIDATE x known/unknown source x all 7 transport states x {controlled,controlling} x {UDP, shared UDP mux, TCP listener, accepted TCP stream, TURN relay}; 28 malformed credential layouts; liveness matrix {Connected,Disconnected} x timeouts x remote-params x mode x selected pair x 12 datagram kinds x 2 sources followed by two keepalive ticks; responses {pending, second pending, unknown id} x {success,error} x 3 repetitions x roles x states"));
     run.finish();
